@@ -2,6 +2,7 @@
    Only statements here; every proof is `exact <lemma of LG/LGProofs.v>`. *)
 From Coq Require Import ZArith List Permutation.
 Require Import Verif.Gen.Gen_log_entry Verif.LG.LGModel Verif.LG.LGProofs.
+Require Import Verif.LG.LGAsyncModel Verif.LG.LGAsyncProofs.
 Import ListNotations.
 Local Open Scope Z_scope.
 
@@ -39,3 +40,26 @@ Example c20_params_4096 : params_ok 4096.
 Proof. exact lg_params_4096. Qed.
 Example c20_spills : length (tabs (run 24 (map Z.of_nat (seq 0 500)))) = 4%nat.
 Proof. vm_compute. reflexivity. Qed.
+
+(* ---- asynchronous appender: writer loop over an abstract FIFO (queue order is property C01) ----
+   q = the entries pushed before close()'s stop marker, in queue order; `batches` = ANY way the queue
+   hands them to the writer (any batch sizes, empty polls included), possibly with later items behind
+   the marker.  Each file receives exactly the scatter lists of its entries, once, in queue order
+   (hence each thread's entries in the order it wrote them, and unmixed: an entry's scatter list is
+   contiguous in the stream), every page of every such entry is returned, and the writer stops. *)
+Theorem c20_async_file_stream_exact : forall q rest batches f,
+  concat batches = map Entry q ++ Stop :: rest ->
+  file_stream (writer w0 batches) f = flat_map (fun e => if Nat.eqb (efile e) f then eiov e else []) q.
+Proof. exact lga_file_stream. Qed.
+Print Assumptions c20_async_file_stream_exact.
+
+Theorem c20_async_pages_returned : forall q rest batches,
+  concat batches = map Entry q ++ Stop :: rest ->
+  Permutation (returned (writer w0 batches)) (flat_map (fun e => map fst (eiov e)) q).
+Proof. exact lga_pages_returned. Qed.
+Print Assumptions c20_async_pages_returned.
+
+Theorem c20_async_writer_stops : forall q rest batches,
+  concat batches = map Entry q ++ Stop :: rest -> stopped (writer w0 batches) = true.
+Proof. exact lga_stops. Qed.
+Print Assumptions c20_async_writer_stops.
